@@ -106,6 +106,19 @@ def work_admm(task):
                     acc.fail(dict(case0, form="matrix+callback", v=v),
                              f"lambda={v} with a rho_update callback: float and constant matrix give different Theta "
                              f"(max diff {float(np.max(np.abs(a - b))):.3g})")
+            # a non-default step size, and ONE matrix object serving two consecutive solves without being refilled
+            for v in (0.25, 1.0):
+                for rho in (2.0, 0.5):
+                    a = admm.admm_optimize_theta(S.copy(), float(v), W, N, rho=rho, max_iterations=300).theta
+                    M = np.full((n, n), float(v))
+                    for use in (1, 2):
+                        acc.n += 1
+                        b = admm.admm_optimize_theta(S.copy(), M, W, N, rho=rho, max_iterations=300).theta
+                        if not np.allclose(a, b, rtol=1e-9, atol=1e-12):
+                            acc.fail(dict(case0, form="matrix+rho", v=v, rho=rho, use=use),
+                                     f"lambda={v}, rho={rho}: float and constant matrix (the matrix object's use no. {use}) give "
+                                     f"different Theta (max diff {float(np.max(np.abs(a - b))):.3g})")
+                            break
             # the covariance floor in every scalar type, through the real optimisation phase: 2^-13 squared
             # underflows in float16, entries the solver leaves just above zero sit below it
             from checks.c03 import run_phase
@@ -301,7 +314,7 @@ def run(ctx):
         "{0,0.25,0.5,1,2} as float/np.float64/np.float32/np.float16/int/np.int64/np.int32/np.uint8 (where exact) "
         "bitwise, plus non-dyadic values held in narrow dtypes (np.float32(0.11), np.float16(0.3), np.uint8(100), "
         "np.int8(50)) vs the Python number of the same value, and window sizes 1..4 in ascending and descending order "
-        "within one process, scalar vs matrix under a residual-balancing rho callback, the covariance floor 2^-13 as float/np.float64/np.float32/np.float16 through the optimisation phase; (ii) every table over {0,1,3}^(T*K), T*K<=6 (thorough 8): beta in {0,0.5,1,2,5} in every scalar "
+        "within one process, scalar vs matrix under a residual-balancing rho callback and at rho in {2, 0.5} with one matrix object serving two consecutive solves, the covariance floor 2^-13 as float/np.float64/np.float32/np.float16 through the optimisation phase; (ii) every table over {0,1,3}^(T*K), T*K<=6 (thorough 8): beta in {0,0.5,1,2,5} in every scalar "
         "type and as float64/float32/int64 constant vector: identical labels and cost; (iii) driver k2a, every "
         "2nd (thorough: every) initial labelling, through ticc_labels: lambda=1, beta=2, eps=0 and eps=0.25 each "
         "in every equivalent form: all result fields bitwise equal; the same through ticc_joint_labels on the 3-series driver j3 (every 16th initial labelling; thorough every 4th). plus beta = 0 in every scalar form and as a zero vector on "
